@@ -4,6 +4,7 @@ import (
 	"context"
 	"database/sql"
 	"fmt"
+	"regexp"
 	"strings"
 
 	"github.com/go-sql-driver/mysql"
@@ -158,7 +159,8 @@ func runC16Program(ctx context.Context, w *ATWorld, db *sql.DB, sc *ATSchema, ta
 		if e.Kind == "connect" || e.Kind == "close" || strings.EqualFold(e.Table, "columns") || strings.EqualFold(e.Table, "statistics") {
 			continue
 		}
-		sqlN := strings.ReplaceAll(strings.ReplaceAll(e.SQL, table, "{T}"), strings.ToLower(table), "{T}")
+		// the table name in whatever way the statement spelled it: as created, UPPER, `quoted`, db.table, `db`.`table`
+		sqlN := regexp.MustCompile("(?i)(`?"+regexp.QuoteMeta(w.DBName)+"`?\\.)?`?\\b"+regexp.QuoteMeta(table)+"`?").ReplaceAllString(e.SQL, "{T}")
 		res.journal = append(res.journal, fmt.Sprintf("%s|%s|%v|%s", e.Kind, sqlN, e.Args, e.Err))
 	}
 	res.coord = len(w.coord.Snapshot()) - c0
@@ -302,6 +304,22 @@ func runC16(c *Ctx) {
 		if !c.Want(cid) {
 			continue
 		}
+		// every fourth program runs on the second data source of the process (another server, another schema);
+		// the programs in between run on the first one, after the second has been opened
+		w := w
+		if i%4 == 3 && mode != "xa-outside" {
+			w = GetATWorldB()
+		}
+		sc.DBName = w.DBName
+		// the statements spell the table name in different ways (as created, UPPER, `quoted`, db.table, `db`.`table`)
+		for k := range steps {
+			if st := steps[k].st; st != nil && big == 0 {
+				if v := (i*7 + k*3) % 10; v >= 5 && v < 9 {
+					st.Spell = v - 4
+				}
+			}
+		}
+		c.Out.Count("datasource." + w.DBName)
 		w.SetUndoConfig(cs.Ser, cs.Comp, cs.Validate, cs.OnlyCare)
 		// ---- identical tables for the proxy and for the bare driver
 		tA, tB := sc.Table, sc.Table+"b"
